@@ -57,6 +57,8 @@ def run(tier, seed):
     from ..asn import shapes
     builds.append(harness.make(tc, seed * 1000 + 797, prof, module_fn=lambda g: shapes.build3("SZ")))
     builds.append(harness.make(tc, seed * 1000 + 798, prof, module_fn=lambda g: shapes.build2("SH2")))
+    # INTEGER_t everywhere: values far beyond intmax_t take the long XER path
+    builds.append(harness.make(tc, seed * 1000 + 796, prof, module_fn=lambda g: shapes.build3("SZ"), options=("-fwide-types",)))
     for b in builds:
         if b.exe is None:
             chk.inconcl("module not built (%s)" % b.error[0])
@@ -74,6 +76,11 @@ def run(tier, seed):
                         continue
                     dec = "dec s=0 t=%s syn=BER in=%s" % (tname, drv.hx(ref))
                     structs.append((tname, "valid" if ok else "constraint-violating", [dec], ok, v if ok else None))
+                    if ok and tname == "Pair":
+                        # a mandatory member that asn1c holds by pointer (the types are mutually recursive) is taken away:
+                        # no encoder may produce anything from such a structure
+                        for nm in ("left", "right"):
+                            structs.append((tname, "mandatory-absent:" + nm, [dec, "xf s=0 kind=nullnamed name=%s limit=1" % nm], False, None))
                     if ok and b.mod.name == "SH2":
                         # the same value with its DEFAULT components stored explicitly
                         structs.append((tname, "valid:defaults-stored", [dec, "xf s=0 kind=default limit=8 seed=1"], True, v))
@@ -133,6 +140,18 @@ def run(tier, seed):
                 if fids and valid:
                     continue
                 key = {"syntax": s, "structure": desc.split(":")[0], "xf": desc.split(":")[-1], "has_set": flags["has_set"], "kind": b.mod.resolve(t).kind}
+                if desc.startswith("mandatory-absent"):
+                    chk.evaluations += 1
+                    if ev[1].get("count") != "1":
+                        chk.inconcl("mandatory pointer member not found by the walker")
+                        break
+                    if rc >= 0:
+                        chk.violation(dict(key, symptom="mandatory-member-absent-encoded"),
+                                      "asn_encode(%s) of %s with its mandatory member '%s' absent (NULL pointer) succeeded and returned %d" % (
+                                          s, tname, desc.split(":")[-1], rc), replay)
+                    else:
+                        chk.count("mandatory_absent_refused_" + s)
+                    continue
                 if rc >= 0:
                     if int(e["bytes"]) != rc:
                         chk.violation(dict(key, symptom="encoded-ne-bytes-delivered"),
